@@ -352,11 +352,29 @@ def _arc_bbox(ctx, mdl):
                     probs.append('%s-extrema: k = %s are never examined (angle range is [-3pi, 3pi])' % (fam, sorted(need - ks[fam])))
             return not probs, '; '.join(probs)
         Obligation(ctx, 'R08.4').run(fi, 'Arc.bbox candidates, %s' % label, th, judge, allowed_raises=('AssertionError',), opts=opts)
-    # the candidates are only admitted for parameters inside [0,1] (closed)
-    ok = any(isinstance(n, ast.Compare) and len(n.ops) == 2 and all(isinstance(o, ast.LtE) for o in n.ops) and norm(n.left) == '0'
-             and norm(n.comparators[1]) == '1' for n in ast.walk(fi.node))
-    ctx.record('R08.4', fi.qualname, 'critical parameters are admitted on the closed interval [0,1]', ok,
-               detail='' if ok else 'no `0 <= t <= 1` admission test', where=where(fi), nontrivial=False)
+    # the candidates are admitted exactly for parameters in the CLOSED interval [0,1]: a concrete arc (rotation 0, theta 0, delta 180)
+    # whose critical parameters are the integers k (x family) and k + 1/2 (y family)
+    seen = []
+
+    def th_adm(it):
+        del seen[:]
+        a = sym_arc(it, 'A', True, True, rotation=Rat.const(0))
+        a.attrs['theta'], a.attrs['delta'] = Rat.const(0), Rat.const(180)
+        it.call_hooks['path.Arc.point'] = lambda it2, args, k: seen.append(to_rat(args[1])) or Rat.csym('PT%d' % len(seen))
+        it.call_method(a, 'bbox')
+        return sorted(x.as_fraction() for x in seen if x.is_const())
+
+    def judge_adm(v):
+        exp = [Fr(0), Fr(1, 2), Fr(1)]
+        if v == exp:
+            return True, ''
+        missing = [str(x) for x in exp if x not in v]
+        extra = [str(x) for x in v if x not in exp]
+        return False, 'critical parameters examined: %s; %s%s' % ([str(x) for x in v],
+                                                                  ('t = %s (on the boundary of [0,1]) not admitted: an extremum at an end parameter of the family is lost; ' % ', '.join(missing)) if missing else '',
+                                                                  ('t = %s outside [0,1] admitted' % ', '.join(extra)) if extra else '')
+    Obligation(ctx, 'R08.4').run(fi, 'critical parameters are admitted on the closed interval [0,1]', th_adm, judge_adm, allowed_raises=('AssertionError',),
+                                 opts=arc_opts(mdl, {'ext_hooks': mm_hooks()}))
 
 
 def cubic_minmax(ctx, rule):
